@@ -2,7 +2,8 @@ import Drand.Chain.CallbackStore
 import Drand.Driver.Stream
 import Gen.Consts
 import Gen.Callback
-namespace Drand.Driver
+namespace Drand.Driver.CbStoreD
+open Drand.Driver.StreamD
 open Drand Drand.Chain.Callback
 
 /-- a scripted consumer: `credits = none` returns from every callback at once; `some k` returns from k more -/
@@ -151,4 +152,4 @@ def cbStep (d : CbDrv) (f : List String) : CbDrv × String :=
   | ["dropped"] => (d, toString d.st.dropped.length)
   | _ => (d, "bad-op")
 
-end Drand.Driver
+end Drand.Driver.CbStoreD
